@@ -3,6 +3,27 @@
 import json, sys
 BASE_OFF = "cd /repo && go test -mod=mod -json -vet=off -count=1 -timeout 25m ./..."
 checks = {
+ "C02": dict(cat="model_checking", design="§4 C02",
+   text="Sync.tla transcribes InsertChain; TLC enumerates every delivery (extensions, forks, overlaps, re-deliveries, duplicates, invalid elements) over a tree of momentums and the generated behaviours are replayed on real followers with account blocks gossiped first, rival blocks pooled first, and restarts between deliveries; after each behaviour the follower's logical store (frontier and every historical view) must be byte-equal to that of a node that only ever saw the adopted chain. A long seeded history (all contracts, rewards over epochs) is delivered under six schedules and compared with the producer; forks across an epoch end are followed by the reward update computed by the follower.",
+   note="abstract histories are short (4 elements of 1 or 15 momentums); long histories use a fixed list of schedules",
+   technique="TLA+ spec Sync.tla + TLC; replay of TLC-generated delivery schedules on real nodes, byte comparison with fresh nodes"),
+ "C06": dict(cat="model_checking", design="§4 C06",
+   text="Store half: VStore.tla (PopExact/PatchesMatch/FreshViewRight after Pop, cache purge) checked exhaustively, negative control for the unpurged cache. Node half: every Sync.tla behaviour (fork depth 1..3 elements of 1 or 15 momentums, views of every element requested before each delivery, a block of an idle account pooled on the branch that is abandoned) ends with: frontier dump, historical dumps of every element, pool and the schedule of the next slots equal to those of a node that only ever saw the adopted branch.",
+   note="consensus statistics compared through GetMomentumProducer; real depths up to 45 momentums",
+   technique="TLA+ specs VStore.tla / Sync.tla + TLC; replay on real nodes compared with fresh nodes"),
+ "C13": dict(cat="model_checking", design="§4 C13",
+   text="Variants.tla: per block type and uncovered field the treatment (verified / normalised / free) and two nodes hearing variant and original in every order; TLC checks HashPinsBytes and NoSplit for the treatment table and refutes them for the code as found. Every cell is replayed on two real nodes: stored bytes on the gossip node vs. the producer, acceptance of the producer's momentum. Every block of a seeded history goes through protobuf, RLP and JSON and is compared byte for byte with its hash recomputed.",
+   note="one representative alteration per field; hashing/signatures ideal in the spec; the user-block changes-hash cell is a recorded finding",
+   technique="TLA+ spec Variants.tla + TLC; replay of every cell on two real nodes; codec round trips"),
+ "C14": dict(cat="model_checking", design="§4 C14",
+   text="Pool.tla transcribes addAccountBlockTransaction / rebuild / DeleteMomentum for one account with identifiers as paths of priority tags; TLC checks WinnerRule (order independence of two competitors, as an invariant over the pure decision) and ConfirmedNeverDisplaced, and refutes WinnerRule for the code as found (height-1 competitors). The complete edge cover is replayed on the real chain.NewAccountPool under three concretisations of how a tag wins; content selection is checked on seeded multi-account pools (limit, unsplit contract batches, per-account prefix).",
+   note="concurrency clause: see level_note in DESIGN (race-detector stress on a real node, schedules not enumerated)",
+   technique="TLA+ spec Pool.tla + TLC; complete edge-cover replay on the real account pool"),
+ "C16": dict(cat="model_checking", design="§4 C16",
+   text="Sync.tla Deliver = InsertChain step by step (skip known prefix, link check, rollback window, strictly longer, rollback, ordered apply with early return); TLC checks OnlyVerified, NeverCrashes and AdoptionRule over all deliveries and refutes NeverCrashes for the code as found. Generated behaviours are replayed on real followers over a real tree of momentums (one element = 15 momentums so that the abstract window 2 is the real window 30), with six manufactured kinds of invalid element; result class, reported index and resulting chain are compared after every delivery.",
+   note="invalid kinds rotate over behaviours; the 30/31 boundary is covered at element granularity",
+   technique="TLA+ spec Sync.tla + TLC; replay of TLC-generated deliveries on real nodes"),
+
  "C01": dict(cat="model_checking", design="§4 C01",
    text="Ledger.tla (balances, supplies, in-flight sends, inboxes; one action per block kind) is checked exhaustively by TLC for Conservation/NonNegative/SupplyOnlyByTokenContract on small constants; every account block and momentum of real executions (the repository's contract tests run unedited under the verif hooks, and seeded lab walks mixing transfers, receives, valid/failing/repeated contract calls, mint/burn/issue/update) is validated by TLC against LedgerTrace.tla with BigNat arithmetic: the logged post-balances and token records must equal what the specification computes, Conservation is evaluated over all accounts at every event, genesis included.",
    note="covers the executions recorded; per-method contract effects are constrained by the conservation shape (credit, descendant sends, token-contract supply delta), not re-derived per method",
